@@ -5,6 +5,7 @@ import BeyondVerif.Model.NodeSpec
 import BeyondVerif.Model.Chain
 import BeyondVerif.Generated.Graphs
 import BeyondVerif.Model.Memo
+import BeyondVerif.Generated.FrameGlue
 noncomputable section
 namespace BeyondVerif.R
 open BeyondVerif.NumReal
@@ -25,8 +26,6 @@ Everything that depends on the date enters through `DateArgs` (time-scale arithm
 
 /-- `np.deg2rad` / `np.radians` / `math.radians` : `x * (π/180)` -/
 def deg2rad (x : R) : R := x * (pi / (180 : R))
-
-def V3.sdiv (u : V3) (k : R) : V3 := ⟨u.x / k, u.y / k, u.z / k⟩
 
 structure DateArgs where
   ttt : R       -- date.change_scale("TT").julian_century
@@ -72,11 +71,12 @@ def nutation80 (epsbar dpsi deps : R) : M3 :=
   let epsilon := epsilon_bar + delta_eps
   M3.mul (M3.mul (rot1 (-epsilon_bar)) (rot3 delta_psi)) (rot1 epsilon)
 
-/-- `iau1980.equinox` (degrees), given the (ε̄, Δψ) `_nutation` returned -/
+/-- `iau1980.equinox` (degrees), given the (ε̄, Δψ) `_nutation` returned; the guard `equinoxKinematic` of the kinematic terms is read
+from the AST (Generated/FrameFormulas*.lean) and pinned by `C02.kinematic_guard_pinned` -/
 def equinox80 (ttt epsbar dpsi day : R) (kinematic : Bool) : R :=
   let equin := dpsi * (3600.0 : R) * cos (deg2rad epsbar)
   let equin :=
-    if day ≥ (50506 : R) ∧ kinematic = true then
+    if equinoxKinematic day kinematic then
       let om_m := (125.04455501 : R) - ((5 : R) * (360.0 : R) + (134.1361851 : R)) * ttt + (0.0020756 : R) * powi ttt 2 + (2.139e-6 : R) * powi ttt 3
       equin + ((0.00264 : R) * sin (deg2rad om_m) + (6.3e-5 : R) * sin (deg2rad ((2 : R) * om_m)))
     else equin
@@ -193,17 +193,26 @@ def orientConvert (D : DateArgs) (names : List String) (hist : List (Nat × Nat)
 
 /-! ## local orbital frames: `to_local(orient, sv, expanded=False).T` -/
 
+/-- `to_local(orient, sv, expanded=False).T`; `lofQsw` / `lofTnw` are `to_qsw` / `to_tnw` of beyond/frames/local.py, translated from the
+source on every run (Generated/FrameFormulas*.lean) -/
 def lofMat (tnw : Bool) (pos vel : V3) : M3 :=
-  let w := V3.cross pos vel
-  let w := V3.sdiv w (V3.norm w)
+  (if tnw then lofTnw pos vel else lofQsw pos vel).tr
+
+/-- Angular velocity of the local orbital frame of a reference moving with velocity `vel` and acceleration `acc`, expressed in the
+axes of the local frame itself (c = pos × vel, h = |c|): QSW `(r (a·c)/h², 0, h/r²)`, TNW `((a·c)(v·p)/(h² V), −(a·c)/(h V), a·(c×v)/(h V²))`.
+For an acceleration in the orbital plane (a·c = 0: any central force) this is `h/r²` resp. `a·(c×v)/(hV²)` (two-body: `μ h/(r³V²)`) along W.
+The code hands NO rate to `expand` for these orientations (`LocalOrbitalOrientation._to_parent` returns `(m, None)`): this is the term it
+leaves out (Props/C02Kin.lean `lof_velocity_defect`, findings C02-lof-no-rate-qsw / -tnw). -/
+def lofRate (tnw : Bool) (pos vel acc : V3) : V3 :=
+  let c := V3.cross pos vel
+  let h := V3.norm c
+  let ac := V3.dot acc c
   if tnw then
-    let t := V3.sdiv vel (V3.norm vel)
-    let n := V3.cross w t
-    (M3.ofRows t n w).tr
+    let V := V3.norm vel
+    ⟨ac * V3.dot vel pos / (h * h * V), -(ac / (h * V)), V3.dot acc (V3.cross c vel) / (h * (V * V))⟩
   else
-    let q := V3.sdiv pos (V3.norm pos)
-    let s := V3.cross w q
-    (M3.ofRows q s w).tr
+    let r := V3.norm pos
+    ⟨r * ac / (h * h), 0, h / (r * r)⟩
 
 /-- an orbit-attached local orbital orientation as the code builds it (`LocalOrbitalOrientation._to_parent`): the reference state
 (`p`, `v`: the cartesian point at the date) is given in a frame of orientation `gori` with the centre of the parent; a COPY of it is
@@ -235,6 +244,12 @@ def resolveLofs (D : DateArgs) (names : List String) (hist : List (Nat × Nat)) 
 
 /-! ## centres and `Frame.transform` -/
 
+/-- a state (position, velocity) as numpy's length-6 array: sum, opposite, zero, and `m @ x` -/
+def S6.add (a b : V3 × V3) : V3 × V3 := (a.1.add b.1, a.2.add b.2)
+def S6.neg (a : V3 × V3) : V3 × V3 := (a.1.neg, a.2.neg)
+def S6.zero : V3 × V3 := (V3.zero, V3.zero)
+def T6.app (m : T6) (x : V3 × V3) : V3 × V3 := m.apply x.1 x.2
+
 /-- `Center.add_link(parent, orientation, offset)`: the offset (evaluated at the date; since 405734d the *cartesian* coordinates of
 the point when the offset is a StateVector, whatever form it is held in) is expressed in orientation `ori` -/
 structure CLink where
@@ -246,36 +261,39 @@ structure CLink where
 
 /-- `Center._to_parent(date, orientation)`: `self.orientation.convert_to(date, orientation) @ offset` -/
 def linkOffset (D : DateArgs) (names : List String) (hist : List (Nat × Nat)) (extras : List Extra) (target : Nat) (l : CLink) : Option (V3 × V3) :=
-  (orientConvert D names hist extras l.ori target).map (fun m => m.apply l.p l.v)
+  (orientConvert D names hist extras l.ori target).map (fun m => Generated.Glue.centreToParent T6.app m (l.p, l.v))
+
+/-- one pass of the loop of `Center.convert_to` over a step `a → b` of the centre route (`none` = an exception): the link
+`a_to_b` if it exists, else the link `b_to_a` with the opposite sign (`Generated.Glue.centreDirect / centreReverse / centreUpdate`:
+read from the AST), else `ValueError` -/
+def centreStep (D : DateArgs) (names : List String) (hist : List (Nat × Nat)) (extras : List Extra) (clinks : List CLink) (target : Nat)
+    (acc : Option (V3 × V3)) (st : Nat × Nat) : Option (V3 × V3) :=
+  match acc with
+  | none => none
+  | some out =>
+    match clinks.find? (fun (l : CLink) => l.child = st.1 ∧ l.parent = st.2) with
+    | some l => (linkOffset D names hist extras target l).map (fun (o : V3 × V3) => Generated.Glue.centreUpdate S6.add out (Generated.Glue.centreDirect S6.neg o))
+    | none =>
+      match clinks.find? (fun (l : CLink) => l.child = st.2 ∧ l.parent = st.1) with
+      | some l => (linkOffset D names hist extras target l).map (fun (o : V3 × V3) => Generated.Glue.centreUpdate S6.add out (Generated.Glue.centreReverse S6.neg o))
+      | none => none
 
 /-- `Center.convert_to(date, new_center, orientation)` -/
 def centerConvert (D : DateArgs) (names : List String) (hist : List (Nat × Nat)) (extras : List Extra)
     (chist : List (Nat × Nat)) (clinks : List CLink) (a b : Nat) (target : Nat) : Option (V3 × V3) :=
   let fuel := chist.length + 3
   match Node.build fuel chist with
-  | none => if a = b then some (V3.zero, V3.zero) else none
+  | none => if a = b then some S6.zero else none
   | some g =>
     match Node.path fuel g a b with
-    | .ok p =>
-      (Node.steps p).foldl (fun (acc : Option (V3 × V3)) (st : Nat × Nat) =>
-        match acc with
-        | none => none
-        | some out =>
-          match clinks.find? (fun (l : CLink) => l.child = st.1 ∧ l.parent = st.2) with
-          | some l => (linkOffset D names hist extras target l).map (fun (o : V3 × V3) => (out.1.add o.1, out.2.add o.2))
-          | none =>
-            match clinks.find? (fun (l : CLink) => l.child = st.2 ∧ l.parent = st.1) with
-            | some l => (linkOffset D names hist extras target l).map (fun (o : V3 × V3) => (out.1.add o.1.neg, out.2.add o.2.neg))
-            | none => none) (some (V3.zero, V3.zero))
+    | .ok p => (Node.steps p).foldl (centreStep D names hist extras clinks target) (some S6.zero)
     | _ => none
 
 /-- `Frame.transform`: `m @ x + offset` -/
 def frameTransform (D : DateArgs) (names : List String) (hist : List (Nat × Nat)) (extras : List Extra)
     (chist : List (Nat × Nat)) (clinks : List CLink) (oa ca ob cb : Nat) (p v : V3) : Option (V3 × V3) :=
   match centerConvert D names hist extras chist clinks ca cb ob, orientConvert D names hist extras oa ob with
-  | some off, some m =>
-    let x := m.apply p v
-    some (x.1.add off.1, x.2.add off.2)
+  | some off, some m => some (Generated.Glue.transformCombine T6.app S6.add m (p, v) off)
   | _, _ => none
 
 /-! ## histories of calls: the memo of `iau1980._nutation_series` (beyond/utils/memoize.py, Model/Memo.lean)
